@@ -2,7 +2,8 @@
    (argument 1) and, for send_join / invite, the received event (argument 2); print outcome,
    call log and returned object.  Also the specification oracles C15.prop.*. *)
 From Verif Require Import Lib.Bytes Json.Ast Json.Parse Json.Print
-     Fed.HandshakeCommon Fed.HandshakeJoin Fed.HandshakeInvite Fed.HandshakePerform Fed.HandshakeSpec.
+     Fed.HandshakeCommon Fed.HandshakeJoin Fed.HandshakeInvite Fed.HandshakePerform
+     Fed.HandshakePerformInvite Fed.HandshakeSpec.
 Open Scope N_scope.
 
 (* ---------- decoding helpers ---------- *)
@@ -146,7 +147,7 @@ Definition dec_pj (j : json) : pj_input :=
                   | _ => None
                   end;
      pj_auth_events := map dec_auth_event (gl "auth_events" j);
-     pj_store_ok := gb "store_ok" j; pj_check_ok := gb "check_ok" j |}.
+     pj_store_ok := gb "store_ok" j; pj_check_own := gb "check_own" j; pj_check_remote := gb "check_remote" j |}.
 
 (* ---------- the signature marker used by the run (the harness substitutes it for a
    signature it has verified with ed25519 against the local public key) ---------- *)
@@ -264,9 +265,69 @@ Definition prop_invite (args : list bytes) : bytes :=
   end.
 Definition prop_perform_join (args : list bytes) : bytes :=
   match args with
-  | [_; cfg; obs] => with_cfg [cfg; cfg] (fun j => oracle (perform_join_admissible (dec_pj j)) obs)
+  | [_; cfg; obs] =>
+      (* which event came back is read off the observable: joined remote_event_used=0/1 *)
+      let used := is_prefix (bs "joined remote_event_used=1") obs in
+      with_cfg [cfg; cfg] (fun j =>
+        if is_prefix (bs "joined") obs then
+          if is_prefix (bs "joined remote_event_used=") (first_line obs) &&
+             (N.of_nat (length (first_line obs)) =? 26) then
+            if perform_join_admissible (dec_pj j) used then bs "ok"
+            else bs "FAIL joined although the request is not admissible for the join event handed back"
+          else bs "FAIL joined with something that is not a join of the user in the room"
+        else bs "ok")
   | _ => bs "badargs"
   end.
+
+(* ---------- HandleInviteV3 ---------- *)
+Definition dec_v3 (j : json) : iv3_extra :=
+  {| v3_proto_room := gs "proto_room" j; v3_proto_type := gs "proto_type" j;
+     v3_proto_membership := gerr_str "proto_membership" j; v3_invited_user := gs "invited_user" j;
+     v3_sender_id := gerr_str "created_sender_id" j; v3_build_ok := gb "build_ok" j |}.
+Definition run_invite_v3 (args : list bytes) : bytes :=
+  with_cfg args (fun j => print_event_result (handle_invite_v3 (dec_v3 j) (dec_iv j JNull))).
+Definition prop_invite_v3 (args : list bytes) : bytes :=
+  match args with
+  | [_; cfg; obs] => with_cfg [cfg; cfg] (fun j => oracle (invite_v3_admissible (dec_v3 j) (dec_iv j JNull)) obs)
+  | _ => bs "badargs"
+  end.
+
+(* ---------- PerformInvite ---------- *)
+Definition dec_latest (j : json) : pi_latest :=
+  {| pl_room_exists := gb "room_exists" j; pl_depth := gz "depth" j; pl_state_ok := gb "state_ok" j;
+     pl_refs_ok := gb "refs_ok" j; pl_refs := strs (gl "refs" j); pl_prev := strs (gl "prev" j) |}.
+
+Definition dec_pi (j : json) : pi_input :=
+  {| pi_version := gs "version" j; pi_target_local := gb "target_local" j; pi_room := gs "room" j;
+     pi_invitee := gs "invitee" j; pi_inviter_domain := gs "inviter_domain" j;
+     pi_invitee_domain := gs "invitee_domain" j;
+     pi_given_state := gl "given_state" j;
+     pi_generated_state := gq (fun v => match v with JArr l => l | _ => [] end) "generated_state" j;
+     pi_set_unsigned_ok := gb "set_unsigned_ok" j;
+     pi_sender_id := match jget (bs "sender_id") j with
+                     | Some (JObj m) => QVal (gs "v" (JObj m))
+                     | Some (JStr _) => QErr
+                     | _ => QNil
+                     end;
+     pi_membership := gerr_str "member_q" j;
+     pi_needed := match jget (bs "needed") j with Some (JArr l) => Some (strs l) | _ => None end;
+     pi_latest_q := match jget (bs "latest") j with Some (JObj m) => Some (dec_latest (JObj m)) | _ => None end;
+     pi_build_ok := gb "build_ok" j; pi_provider_ok := gb "provider_ok" j;
+     pi_allowed_ok := gb "allowed_ok" j; pi_send_ok := gb "send_ok" j |}.
+
+Definition print_pi (r : pi_result) : bytes :=
+  join_bytes nl ([outcome_name (pir_out r); join_bytes semi (pir_log r)] ++
+    match pir_event r with
+    | Some (PIBuilt sk depth auth prev signers st) =>
+        [entry [bs "built"; sk; print_int depth; bs "auth=" ++ join_bytes comma auth;
+                bs "prev=" ++ join_bytes comma prev; bs "signers=" ++ join_bytes comma signers;
+                canon_print st]]
+    | Some PIRemote => [bs "remote_response"]
+    | None => []
+    end).
+
+Definition run_perform_invite (args : list bytes) : bytes :=
+  with_cfg args (fun j => print_pi (perform_invite (dec_pi j))).
 
 (* fields of an event text: [scenario; event id; event text] *)
 Definition run_fields (args : list bytes) : bytes :=
@@ -282,6 +343,12 @@ Definition run_fields (args : list bytes) : bytes :=
   | _ => bs "badargs"
   end.
 
+Definition prop_perform_invite (args : list bytes) : bytes :=
+  match args with
+  | [_; cfg; obs] => with_cfg [cfg; cfg] (fun j => oracle (perform_invite_admissible (dec_pi j)) obs)
+  | _ => bs "badargs"
+  end.
+
 Definition ops_C15 : list (bytes * (list bytes -> bytes)) :=
   [ (bs "C15.make_join", run_make_join);
     (bs "C15.make_leave", run_make_leave);
@@ -290,6 +357,10 @@ Definition ops_C15 : list (bytes * (list bytes -> bytes)) :=
     (bs "C15.perform_join", run_perform_join);
     (bs "C15.restricted_join", run_restricted_join);
     (bs "C15.fields", run_fields);
+    (bs "C15.invite_v3", run_invite_v3);
+    (bs "C15.prop.invite_v3", prop_invite_v3);
+    (bs "C15.perform_invite", run_perform_invite);
+    (bs "C15.prop.perform_invite", prop_perform_invite);
     (bs "C15.prop.make_join", prop_make_join);
     (bs "C15.prop.make_leave", prop_make_leave);
     (bs "C15.prop.send_join", prop_send_join);
